@@ -106,6 +106,9 @@ func c10sched(c *core.Ctx) {
 				vsched.Failf("filter b/# (granted QoS 0) of the resumed session: probe published after the first answer was delivered %d times (QoS %d): %s", n, q, Describe(r.pkts))
 				return
 			}
+			if t.badStream() {
+				return
+			}
 			vsched.Logf("ok")
 		}})
 	}
@@ -173,6 +176,9 @@ func c10sched(c *core.Ctx) {
 			n, _ = count(x3.Take(), "a", "probe3")
 			if n != want {
 				vsched.Failf("%s: third connection received the probe on the old filter %d times, expected %d", v.name, n, want)
+				return
+			}
+			if t.badStream() {
 				return
 			}
 			vsched.Logf("ok")
